@@ -462,8 +462,12 @@ _mtbl_decompress_zlib(
 		.zfree		= Z_NULL,
 	};
 
-	/* zlib counts the bytes of the compressed input in 32 bits. */
-	if (input_size > INT_MAX)
+	/*
+	 * zlib counts the bytes of the compressed input in 32 bits (unsigned:
+	 * the compressed form of an incompressible input of INT_MAX bytes,
+	 * which _mtbl_compress_zlib() accepts, is larger than INT_MAX).
+	 */
+	if (input_size > UINT_MAX)
 		return (mtbl_res_failure);
 
 	/**
